@@ -12,7 +12,9 @@ let parse_hist s =
      else if t = "F" then Arrive Fin
      else if t.[0] = 'R' then Arrive (Reset (n_of_string (sub1 t)))
      else if t.[0] = 'c' then Arrive (Chunk (bytes_of_hex (sub1 t)))
-     else failwith ("bad history item " ^ t)) (String.split_on_char ',' s))
+     else failwith ("bad history item " ^ t))
+     (* g<n>: the transport segments its deliveries (SEG<n>); a delivery is its byte string in the model *)
+     (List.filter (fun t -> t.[0] <> 'g') (String.split_on_char ',' s)))
   @ [Poll]
 (* mode: d | r<k> | t<k>, optionally prefixed by s (split, bidi only) *)
 let split_of s = String.length s > 0 && s.[0] = 's'
@@ -31,6 +33,7 @@ let project tag s =
   (if s = "-" then [] else
    List.concat (List.map (fun t ->
      if t = "p" then [Poll]
+     else if t.[0] = 'g' then []
      else if String.length t > 2 && t.[0] = tag && t.[1] = ':' then [parse_item (String.sub t 2 (String.length t - 2))]
      else []) (String.split_on_char ',' s)))
   @ [Poll]
@@ -50,7 +53,7 @@ let spec_end = function WtFin -> "fin" | WtReset c -> "reset:" ^ string_of_n c |
 let spec_obs kind sess = function
   | ObsStream (s, p, e) ->
       Printf.sprintf "ok sess=%s %s sid=%s data=%s end=%s %s" sess kind (string_of_n s) (hex_of_bytes p) (spec_end e) quiet
-  | ObsNothing -> Printf.sprintf "ok sess=%s nostream %s" sess quiet
+  | ObsNothing -> Printf.sprintf "ok sess=%s nostream close=- stop=*" sess
   | ObsUnconstrained -> Printf.sprintf "ok sess=%s **" sess
 let handle ws = match ws with
   | ["wt.sess"; s; _npre; _en] ->
@@ -104,7 +107,9 @@ let handle ws = match ws with
         end in
       let mline = (match body with Some b -> "ok sess=" ^ sess ^ " " ^ b | None -> "panic") in
       let cs = string_of_n (wt_session_of_connect s) in
-      let obs = if kind = "uni" then wt_expect_uni en (flat h) (wt_end_of h) else wt_expect_bidi (flat h) (wt_end_of h) in
+      let obs = if kind = "uni" then wt_expect_uni en (flat h) (wt_end_of h)
+                else if en then wt_expect_bidi (flat h) (wt_end_of h)
+                else ObsUnconstrained (* the statement gates unidirectional streams only *) in
       mline ^ " | " ^ spec_obs kind cs obs
   | ["wt.recv2"; s; en; mode; hist] ->
       let s = n_of_string s in
@@ -126,7 +131,7 @@ let handle ws = match ws with
               | _ -> None)) in
         let sp = (match wt_expect_uni en (flat h) (wt_end_of h) with
           | ObsStream (i, p, e) -> Printf.sprintf "uni sid=%s data=%s end=%s stop=-" (string_of_n i) (hex_of_bytes p) (spec_end e)
-          | ObsNothing -> "nostream stop=-"
+          | ObsNothing -> "nostream stop=*"
           | ObsUnconstrained -> "nostream *") in
         (md, sp) in
       let (ma, sa) = one 'a' and (mb, sb) = one 'b' in
@@ -134,5 +139,81 @@ let handle ws = match ws with
         | Some a, Some b -> Printf.sprintf "ok sess=%s A %s B %s close=-" sess a b
         | _ -> "panic") in
       mline ^ " | " ^ Printf.sprintf "ok sess=%s A %s B %s close=-" cs sa sb
+  | ["wt.multi"; s; en; mode; hist] ->
+      let s = n_of_string s in
+      let m = mode_of mode in
+      let en = en <> "0" in
+      let sess = string_of_n (session_of_stream s) in
+      let cs = string_of_n (wt_session_of_connect s) in
+      let toks = if hist = "-" then [] else String.split_on_char ',' hist in
+      let id_of t = match String.index_opt t ':' with Some i -> Some (int_of_string (String.sub t 0 i), String.sub t (i + 1) (String.length t - i - 1)) | None -> None in
+      let ids = List.sort_uniq compare (List.filter_map (fun t -> match id_of t with Some (i, _) -> Some i | None -> None) toks) in
+      let proj id =
+        List.concat (List.map (fun t ->
+          if t = "p" then [Poll] else
+          match id_of t with
+          | Some (i, rest) when i = id && rest <> "o" -> [parse_item rest]
+          | _ -> []) toks) @ [Poll] in
+      let ok = ref true in
+      let mparts = Buffer.create 64 and sparts = Buffer.create 64 in
+      List.iter (fun id ->
+        let h = proj id in
+        let uni = id land 2 <> 0 in
+        let (md, sp) =
+          if uni then begin
+            let st = uni_run en m h in
+            let md = (match st.u_ph with
+              | UAccepting _ -> Some "nostream stop=-"
+              | UReading (i, _) -> Some (Printf.sprintf "uni sid=%s data=%s end=pending stop=-" (string_of_n i) (pieces st.u_out))
+              | UEnded (i, e) -> Some (Printf.sprintf "uni sid=%s data=%s end=%s stop=-" (string_of_n i) (pieces st.u_out) (ending e))
+              | UNever r -> (match r with
+                  | RtRemoved | RtDropped -> Some "nostream stop=-"
+                  | RtStopped c -> Some ("nostream stop=" ^ string_of_n c)
+                  | RtOther t -> Some ("other " ^ string_of_n t)
+                  | _ -> None)) in
+            let sp = (match wt_expect_uni en (flat h) (wt_end_of h) with
+              | ObsStream (i, p, e) -> Printf.sprintf "uni sid=%s data=%s end=%s stop=-" (string_of_n i) (hex_of_bytes p) (spec_end e)
+              | ObsNothing -> "nostream stop=*"
+              | ObsUnconstrained -> "?") in
+            (md, sp)
+          end else begin
+            let st = bidi_run false m h in
+            let md = (match st.b_ph with
+              | BAccepting _ -> Some "nostream stop=-"
+              | BReading (i, _) -> Some (Printf.sprintf "bi sid=%s data=%s end=pending stop=-" (string_of_n i) (pieces st.b_out))
+              | BEnded (i, e) -> Some (Printf.sprintf "bi sid=%s data=%s end=%s stop=-" (string_of_n i) (pieces st.b_out) (ending e))
+              | BNotWt _ -> None) in
+            let sp = (match (if en then wt_expect_bidi (flat h) (wt_end_of h) else ObsUnconstrained) with
+              | ObsStream (i, p, e) -> Printf.sprintf "bi sid=%s data=%s end=%s stop=-" (string_of_n i) (hex_of_bytes p) (spec_end e)
+              | ObsNothing -> "nostream stop=*"
+              | ObsUnconstrained -> "?") in
+            (md, sp)
+          end in
+        (match md with Some x -> Buffer.add_string mparts (Printf.sprintf " #%d %s" id x) | None -> ok := false);
+        Buffer.add_string sparts (Printf.sprintf " #%d %s" id sp)) ids;
+      let mline = if !ok then "ok sess=" ^ sess ^ Buffer.contents mparts ^ " close=-" else "panic" in
+      mline ^ " | ok sess=" ^ cs ^ Buffer.contents sparts ^ " close=-"
+  | ["wt.open2"; s; _en; wb; _credit; ops] ->
+      let s = n_of_string s in
+      let wb = int_of_string wb in
+      let sess = session_of_stream s in
+      let cs = wt_session_of_connect s in
+      let ops = List.map (fun o -> match String.index_opt o ':' with
+        | Some i -> (String.sub o 0 i, bytes_of_hex (String.sub o (i + 1) (String.length o - i - 1)))
+        | None -> (o, [])) (String.split_on_char ',' ops) in
+      let one (kind, p) =
+        let hdr = if kind = "bi" then bidi_header sess else uni_header sess in
+        match hdr with
+        | Ok h ->
+            let ks = if wb = 0 then [n_of_int (List.length h + 1)] else repeat_n (List.length h + 1) (n_of_int wb) in
+            let (out, w) = wb_send ks (wb_of h) in
+            if wb_chunk w <> [] then None else Some (hex_of_bytes (out @ p))
+        | _ -> None in
+      let ms = List.map one ops in
+      let m = if List.exists (fun x -> x = None) ms then "panic"
+              else "ok sess=" ^ string_of_n sess ^ " tx=" ^ String.concat "," (List.map (function Some x -> x | None -> "") ms) in
+      let sp = String.concat "," (List.map (fun (kind, p) ->
+        hex_of_bytes (wt_stream_bytes (if kind = "bi" then wT_BIDI_SIGNAL else wT_UNI_TYPE) cs p)) ops) in
+      m ^ " | ok sess=" ^ string_of_n cs ^ " tx=" ^ sp
   | _ -> "driver-error unknown-case"
 let () = run_lines handle
